@@ -570,6 +570,8 @@ func (o *ObjectSchema) applySubObjectDefaultValues(
 		subObject = property.Type().(Ref).GetObject()
 	case TypeIDObject:
 		subObject = property.Type().(Object)
+	case TypeIDScope:
+		subObject = property.Type().(Scope).RootObject()
 	default:
 		return
 	}
